@@ -17,6 +17,7 @@ from lv.gen.grammar import data_strategy
 from lv.gen.grammar import program_strategy
 from lv.gen.printer import to_source
 from lv.harness.envs import make_env
+from lv.harness.envs import run_coro
 
 from liquid2.exceptions import LiquidError
 
@@ -550,6 +551,18 @@ class C18(Prop):
                         except LiquidError as err:
                             out = ("err", type(err).__name__)
                         res.evaluations += 1
+                        if name.startswith("all") and name != "all~":
+                            # the hand-written async twins trim and suppress as well
+                            try:
+                                out_a: Any = ("ok", run_coro(env.from_string(src).render_async(**data)))
+                            except LiquidError as err:
+                                out_a = ("err", type(err).__name__)
+                            res.evaluations += 1
+                            if out_a != out:
+                                res.fail("ws-insensitive", f"async-differs:{self._culprit(p)}",
+                                         f"{name}/{default}/suppress={suppress}: render -> {out!r}, render_async -> "
+                                         f"{out_a!r}; src={src!r}")
+                                return res
                         outs[(name, default, suppress)] = out
                         if out[0] == "ok":
                             raw_outputs.add(out[1])
